@@ -505,7 +505,8 @@ def run(tier: str, seed: int, replay: str | None = None) -> int:
         if dom and spec_ok != py_spec(impl):
             chk.broken.append("Oracle:the Coq judge and the direct comparison of the outputs disagree on whether parallel = sequential "
                               f"(case {case['i']})")
-        cand = [bool(b) for b in ver[4:]]
+        cand = [bool(b) for b in ver[4:8]]
+        err_explained = bool(ver[8]) if len(ver) > 8 else False
         info = {"case": case, "observed": _summary(case, impl), "candidates_matching_impl": [nm for nm, ok in zip(names, cand) if ok]}
         if not dom:
             chk.violation({"reason": "a measured violation is not a well-formed Violation record (field list differs from src/core/types.py) "
@@ -513,6 +514,12 @@ def run(tier: str, seed: int, replay: str | None = None) -> int:
             continue
         if not seq_ok:
             chk.correspondence_broken({"level": "observable", "detail": "lint_files differs from concat(per-file results in fresh processes) ++ finalize report", **info})
+        if err_explained and not cand[0] and ideal_ok and not spec_ok:
+            # sequential raises, parallel returns: theorem C07_errors_swallowed.  What the parallel run returns in this class
+            # has no sequential counterpart; when a file raises, the finalize() table cannot be measured, so a tree in which
+            # only the cross-file defect is repaired is not matched output-for-output here.
+            chk.known_finding("q_worker_swallows_errors", info)
+            continue
         cands_all = cand if cands_all is None else [a and b for a, b in zip(cands_all, cand)]
         if spec_ok:
             continue
